@@ -225,7 +225,8 @@ impl<'tcx> Cx<'tcx> {
             match &t.kind {
                 TerminatorKind::Goto { target } => { let _ = write!(out, "{{\"k\":\"goto\",\"t\":{}}}", target.as_u32()); }
                 TerminatorKind::SwitchInt { discr, targets } => {
-                    let _ = write!(out, "{{\"k\":\"switch\",\"d\":{},\"t\":[", self.operand(did, body, discr));
+                    let dty = discr.ty(&body.local_decls, tcx);
+                    let _ = write!(out, "{{\"k\":\"switch\",\"dty\":{},\"d\":{},\"t\":[", self.ty(dty), self.operand(did, body, discr));
                     for (i, (v, b)) in targets.iter().enumerate() { if i > 0 { out.push(','); } let _ = write!(out, "[\"{}\",{}]", v, b.as_u32()); }
                     let _ = write!(out, "],\"else\":{},\"sp\":{}}}", targets.otherwise().as_u32(), sp);
                 }
